@@ -329,8 +329,12 @@ def cache_rules(R, lib):
                         bad['R3'] = bad['R3'] or 'requests %s: request %d raises %s' % (list(seq), step + 1, x_.what)
                         break
                     n += 1
-                    if isinstance(r, Ref):
-                        r = r.get()
+                    for _ in range(3):
+                        # a pointer to a slot, a pointer to that pointer's cell, the array itself (= its first element)
+                        if isinstance(r, Ref):
+                            r = r.get()
+                        elif isinstance(r, list) and r:
+                            r = r[0]
                     if not any(r is s for s in slots):
                         bad['R3'] = bad['R3'] or 'requests %s: request %d is answered with %r, which is not a slot of the cache' % (list(seq), step + 1, r)
                         break
